@@ -532,4 +532,64 @@ theorem p2sh_not_witness (h : Bytes) (hlen : h.length = 20) : isWitnessProgram (
   simp [isWitnessProgram, OP_0, OP_1, OP_16]
 
 
+/-- the signatures (top of stack first) verify for a subsequence of the keys (top of stack first) -/
+inductive Embeds (chk : PChk) (code : Bytes) (sv : SigVersion) : List Bytes → List Bytes → Prop
+  | nil (keys : List Bytes) : Embeds chk code sv [] keys
+  | take {s k : Bytes} {ss ks : List Bytes} : chk s k code sv = true → Embeds chk code sv ss ks → Embeds chk code sv (s :: ss) (k :: ks)
+  | skip {k : Bytes} {sigs ks : List Bytes} : Embeds chk code sv sigs ks → Embeds chk code sv sigs (k :: ks)
+
+theorem Embeds.length_le {chk : PChk} {code : Bytes} {sv : SigVersion} {sigs keys : List Bytes}
+    (h : Embeds chk code sv sigs keys) : sigs.length ≤ keys.length := by
+  induction h with
+  | nil => simp
+  | take _ _ ih => simp; omega
+  | skip _ ih => simp; omega
+
+theorem Embeds.tail {chk : PChk} {code : Bytes} {sv : SigVersion} {s : Bytes} {ss keys : List Bytes}
+    (h : Embeds chk code sv (s :: ss) keys) : Embeds chk code sv ss keys := by
+  generalize hl : s :: ss = l at h
+  induction h with
+  | nil => cases hl
+  | take _ h' _ => cases hl; exact Embeds.skip h'
+  | skip _ ih => exact Embeds.skip (ih hl)
+
+/-- the matching loop of `OP_CHECKMULTISIG` accepts signatures that verify for keys in key order -/
+theorem multisigLoop_accepts (chk : PChk) (flags : Flags) (sv : SigVersion) (code : Bytes) :
+    ∀ (keys sigs : List Bytes), Embeds chk code sv sigs keys →
+      (∀ s ∈ sigs, checkSignatureEncoding s flags = none) → (∀ k ∈ keys, checkPubKeyEncoding k flags sv = none) →
+      multisigLoop (m := Id) (liftChk chk) flags sv code sigs keys = .ok true := by
+  intro keys
+  induction keys with
+  | nil =>
+    intro sigs he _ _
+    cases he with
+    | nil => rfl
+  | cons k ks ih =>
+    intro sigs he hs hk
+    cases sigs with
+    | nil => rfl
+    | cons s ss =>
+      simp only [multisigLoop, hs s (by simp), hk k (by simp), liftChk, bind, pure]
+      have hss : ∀ x ∈ ss, checkSignatureEncoding x flags = none := fun x hx => hs x (List.mem_cons_of_mem _ hx)
+      have hks : ∀ x ∈ ks, checkPubKeyEncoding x flags sv = none := fun x hx => hk x (List.mem_cons_of_mem _ hx)
+      by_cases hc : chk s k code sv = true
+      · have hemb : Embeds chk code sv ss ks := by
+          cases he with
+          | take _ h' => exact h'
+          | skip h' => exact h'.tail
+        have := hemb.length_le
+        simp only [hc, if_true]
+        rw [if_neg (by omega)]
+        exact ih ss hemb hss hks
+      · have hemb : Embeds chk code sv (s :: ss) ks := by
+          cases he with
+          | take hc' _ => exact absurd hc' hc
+          | skip h' => exact h'
+        have := hemb.length_le
+        have hcf : chk s k code sv = false := by simpa using hc
+        simp only [hcf, Bool.false_eq_true, if_false]
+        rw [if_neg (by omega)]
+        exact ih (s :: ss) hemb hs hks
+
+
 end Pycoin.Sign
